@@ -64,3 +64,45 @@ pub open spec fn configured_action(c: TransactionConfig, cond: Condition) -> Fau
 pub axiom fn axiom_condition_key_model()
     ensures vstd::std_specs::hash::obeys_key_model::<Condition>(),
 ;
+
+// ---- abstract file (ASSUMED POSIX semantics): content and cursor
+pub uninterp spec fn file_bytes(f: File) -> Seq<u8>;
+pub uninterp spec fn file_pos(f: File) -> int;
+
+/// std: Seek::stream_position "Returns the current seek position from the start of the stream."
+#[verifier::external_body]
+pub fn vx_stream_position(h: &mut File) -> (r: TransactionResult<u64>)
+    ensures
+        file_bytes(*final(h)) == file_bytes(*old(h)),
+        file_pos(*final(h)) == file_pos(*old(h)),
+        r matches Ok(p) ==> p == file_pos(*old(h)),
+{
+    unimplemented!()
+}
+
+/// std: Seek::seek(SeekFrom::Start(o)) "Sets the offset to the provided number of bytes."
+#[verifier::external_body]
+pub fn vx_seek_start(h: &mut File, offset: u64) -> (r: TransactionResult<u64>)
+    ensures
+        file_bytes(*final(h)) == file_bytes(*old(h)),
+        r is Ok ==> file_pos(*final(h)) == offset,
+{
+    unimplemented!()
+}
+
+/// std: Read::take(n).read_to_end(buf) on a file: reads until n bytes or end of file, from the cursor, and advances it
+#[verifier::external_body]
+pub fn vx_read_up_to(h: &mut File, n: u16) -> (r: TransactionResult<Vec<u8>>)
+    ensures
+        file_bytes(*final(h)) == file_bytes(*old(h)),
+        r matches Ok(d) ==> {
+            &&& d@.len() <= n
+            &&& file_pos(*old(h)) + d@.len() <= u64::MAX
+            &&& file_pos(*final(h)) == file_pos(*old(h)) + d@.len()
+            &&& d@ == file_bytes(*old(h)).subrange(
+                    if file_pos(*old(h)) <= file_bytes(*old(h)).len() { file_pos(*old(h)) } else { file_bytes(*old(h)).len() as int },
+                    if file_pos(*old(h)) + n <= file_bytes(*old(h)).len() { file_pos(*old(h)) + n } else if file_pos(*old(h)) <= file_bytes(*old(h)).len() { file_bytes(*old(h)).len() as int } else { file_bytes(*old(h)).len() as int })
+        },
+{
+    unimplemented!()
+}
